@@ -1,6 +1,7 @@
 package main
 
 import (
+	"sort"
 	"go/constant"
 	"go/token"
 	"go/types"
@@ -159,6 +160,20 @@ func ruleProvMeta(c *Ctx, r *Rep) {
 				case "LastConfigUpdate":
 					ok := len(o) == 1 && strings.Contains(o[0], "ModTime(I:io/fs.StatFS.Stat(") && cfgPath != "" && strings.Contains(o[0], "|"+cfgPath+")#0)")
 					r.Check(ok, "config-mtime|"+fk, c.Pos(fs.st.Pos()), "ModTime of Stat(configuration path)", joined)
+					// recorded whenever the file's time could be had: the time itself does not decide whether it is kept
+					dep := ""
+					gs := guardsOf(fs.st.Block())
+					if fr.site != nil {
+						gs = append(gs, guardsOf(fr.site.Block())...)
+					}
+					for _, g := range gs {
+						for _, l := range leaves(g.Cond, 0) {
+							if strings.Contains(l, "ModTime(") || strings.Contains(l, "time.Now(") {
+								dep = c.Pos(g.Cond.Pos()) + ": " + l
+							}
+						}
+					}
+					r.Check(dep == "", "config-mtime-whenever-known|"+fk, c.Pos(fs.st.Pos()), "the configuration's modification time is recorded whatever it is (a time ahead of this machine's clock is still newer than the artifact)", dep)
 				case "LastBuild":
 					const pre = "I:os.FileInfo.ModTime(I:filesystem.Filesystem.Stat("
 					ok := len(o) == 1 && strings.HasPrefix(o[0], pre) && strings.HasSuffix(o[0], ")#0)")
@@ -1178,6 +1193,38 @@ func ruleDecodeDirect(c *Ctx, r *Rep) {
 			key := nt.Obj().Name() + "|" + c.FuncKey(fn)
 			n[key]++
 			r.Check(len(re) == 0, sprintf("document-bytes|%s#%d", key, n[key]), c.Pos(ci.Pos()), "the decoder reads the document (or its YAML-to-JSON conversion), not a re-encoded generic value", strings.Join(uniq(re), "; "))
+		}
+	}
+	// the text a version's reader is handed is the text that was read from the stream: nothing rewrites it on the way
+	// (expanding $NAME, replacing tabs, normalising line ends would change what a subject or a raw value says)
+	readers := map[string]bool{"io.ReadAll": true, "io/ioutil.ReadAll": true, "(*strings.Builder).String": true, "(*bytes.Buffer).String": true,
+		"(*bytes.Buffer).Bytes": true, "io.Copy": true, "os.ReadFile": true, "io/fs.ReadFile": true, "new": true, "P": true, "K": true, "conv:string": true, "conv:[]byte": true}
+	reCallName := regexp.MustCompile(`((?:\(\*?[A-Za-z0-9_./]+\)\.)?[A-Za-z_][A-Za-z0-9_./]*)\(`)
+	var readerNames []string
+	for n := range readers {
+		readerNames = append(readerNames, n)
+	}
+	sort.Slice(readerNames, func(i, j int) bool { return len(readerNames[i]) > len(readerNames[j]) })
+	for _, fn := range c.Funcs {
+		k := 0
+		for _, ci := range callsIn(fn) {
+			cc := ci.Common()
+			if !cc.IsInvoke() || cc.Method.Name() != "ParseConfiguration" || len(cc.Args) != 1 {
+				continue
+			}
+			k++
+			var rewritten []string
+			for _, o := range pv.Origins(cc.Args[0]) {
+				// blank out the calls that only read, longest names first; what is left and looks like a call rewrites
+				rest := o
+				for _, name := range readerNames {
+					rest = strings.ReplaceAll(rest, name+"(", "§(")
+				}
+				for _, m := range reCallName.FindAllStringSubmatch(rest, -1) {
+					rewritten = append(rewritten, m[1])
+				}
+			}
+			r.Check(len(rewritten) == 0, sprintf("text-as-read|%s#%d", c.FuncKey(fn), k), c.Pos(ci.Pos()), "the text handed to the configuration reader is the text read from the stream, not rewritten on the way", strings.Join(uniq(rewritten), ", "))
 		}
 	}
 }
